@@ -1,4 +1,5 @@
 import CrdtModel.Proofs.OrswotValidate
+import CrdtModel.Proofs.OrswotApply
 import CrdtModel.Spec.OrswotSys
 import CrdtModel.Spec.Lattice
 set_option linter.unusedSectionVars false
@@ -115,6 +116,33 @@ theorem orswot_ok_reachable {U Ka Kb : List (OrswotOp M A)} {a b : Orswot M A} (
 /-- in particular a replica may always merge its own state or any of its snapshots -/
 theorem orswot_ok_self {U K : List (OrswotOp M A)} {a : Orswot M A} (wf : LogWF U) (single : SingleAdds U)
     (ha : orswotSys.Reach U a K) : a.validateMerge a = .ok () := orswot_ok_reachable wf single ha ha
+
+/-- **the defect F8 in general form** (not only a witness): at EVERY set state without pending removes whose witnesses of the adding
+actor are below its clock entry (true of every derivable state: `C18.orswot_reach_le`), applying the op `add_all` builds for two DIFFERENT
+members with the actor's next dot yields a state that `validate_merge` rejects – against itself, hence against every replica that applied
+the same op: correct use is flagged, whatever else the set contains. -/
+theorem add_all_always_flagged (s : Orswot M A) (d : Dot A) (m1 m2 : M) (hne : m1 ≠ m2) (hdef : s.deferred = ∅)
+    (hfresh : s.clock.get d.actor < d.counter) (hle : ∀ m, entryGet s.entries m d.actor ≤ s.clock.get d.actor) :
+    ∃ e, (s.apply (.add d [m1, m2])).validateMerge (s.apply (.add d [m1, m2])) = .error e := by
+  have hstate : (s.apply (.add d [m1, m2])).entries = insertAll d [m1, m2] s.entries := by
+    have hg : ¬ s.clock.get d.actor ≥ d.counter := by omega
+    simp only [Orswot.apply, hg, if_false]
+    unfold Orswot.applyDeferred
+    simp only [hdef]
+    rfl
+  have h1 : entryGet (insertAll d [m1, m2] s.entries) m1 d.actor = d.counter := by
+    rw [entryGet_insertAll]
+    have := hle m1
+    simp only [List.mem_cons, true_or, and_self, if_true]
+    omega
+  have h2 : entryGet (insertAll d [m1, m2] s.entries) m2 d.actor = d.counter := by
+    rw [entryGet_insertAll]
+    have := hle m2
+    simp only [List.mem_cons, List.mem_nil_iff, or_false, or_true, and_self, if_true]
+    omega
+  apply orswot_misuse_flagged _ _ hne (x := d.actor)
+  · rw [hstate, h1]; omega
+  · rw [hstate, h1, h2]
 
 end orswot
 
